@@ -98,14 +98,15 @@ ParseFrom(ps, lines, j) == IF ps.done THEN ps ELSE ParseFrom(ParseLine(ps, lines
 ParseAll(lines, default, nid, cap) == ParseFrom(InitParse(default, nid, cap), lines, 1)
 
 \* the same, also collecting what an observer of the builder sees: the delivered tokens and the builder calls made for each
-RECURSIVE RunFrom(_, _, _, _, _)
-RunFrom(ps, lines, j, toks, evs) ==
-   IF ps.done THEN [ps |-> ps, toks |-> toks, events |-> evs]
+RECURSIVE RunFrom(_, _, _, _, _, _)
+RunFrom(ps, lines, j, toks, evs, sts) ==
+   IF ps.done THEN [ps |-> ps, toks |-> toks, events |-> evs, sts |-> sts]
    ELSE LET nxt == ParseLine(ps, lines, j)  r == FiredAt(ps, lines, j)  delivered == nxt.count = ps.count + 1 IN
         RunFrom(nxt, lines, j + 1,
                 IF delivered THEN Append(toks, Delivered(r.tok, j, ps.ms)) ELSE toks,
-                IF delivered THEN Append(evs, Table[ps.st][r.hit].prods) ELSE evs)
-RunAll(lines, default, nid, cap) == RunFrom(InitParse(default, nid, cap), lines, 1, <<>>, <<>>)
+                IF delivered THEN Append(evs, Table[ps.st][r.hit].prods) ELSE evs,
+                Append(sts, [st |-> ps.st, ms |-> ps.ms]))          \* sts[j]: parser position and matcher state BEFORE line j is read
+RunAll(lines, default, nid, cap) == RunFrom(InitParse(default, nid, cap), lines, 1, <<>>, <<>>, <<>>)
 
 Rejected(ps) == ps.bs.errs # <<>>
 \* the id counter after Parser.parse returned or raised (the final end_rule is skipped when the error limit aborts)
